@@ -29,8 +29,10 @@ ASSUMPTIONS = [
     "(sqlite3.OperationalError before the statement is performed / Ctrl-C while it is awaited, the statement being performed by the "
     "sqlite thread) at any awaited execute / executescript / commit of DBHandler.connect, insert_run_meta, complete_run_meta, "
     "disconnect, injected by wrapping aiosqlite.Connection (main task only, counted per call). An OperationalError inside "
-    "complete_run_meta is compared with the model but a completed row is not demanded (the database refuses that very write). Three "
-    "fault points break the property on the tree as it is (known_findings.jsonl; `Fault.bad`)",
+    "complete_run_meta is compared with the model but a completed row is not demanded (the database refuses that very write); for a "
+    "Ctrl-C that arrives inside the finally block (complete_run_meta / disconnect) the code the run had ended with and 130 are both "
+    "accepted as long as return value, META.json and the row agree. One fault point breaks the property on the tree as it is "
+    "(Ctrl-C at the INSERT of insert_run_meta: known_findings.jsonl; `Fault.bad`)",
     "the lock file: 'cannot be locked' is represented by a lock file below a missing directory / below a regular file (any "
     "OSError of open / flock takes the same `except OSError` -> exit 72); 'held by somebody else' by a second descriptor in "
     "the same process that releases it once the run has logged that it waits; Ctrl-C during that wait by SIGINT / "
@@ -454,7 +456,7 @@ def build_cases(ctx):
     # 1c. a fault at one await INSIDE a database call: every awaited statement of connect / insert_run_meta / complete_run_meta /
     #     disconnect (and one index past the last: never reached) x {OperationalError, Ctrl-C by SIGINT / Task.cancel} x what the
     #     command itself ends with
-    bodies = ["ok", "exit:3", "conn", "other", "kbd", "cancel"] if full else ["ok", "exit:3", rng.choice(["conn", "other", "kbd", "cancel", "uds"])]
+    bodies = ["ok", "exit:3", "conn", "other", "kbd", "cancel"] if full else ["exit:3", rng.choice(["conn", "other", "kbd", "cancel", "uds"])]
     for kind in KINDS:
         for call, n in DB_CALLS.items():
             for i in range(n + 1):
@@ -913,21 +915,27 @@ MANIFEST = {
                    "released, the post-hook sees the same code and META, failing hooks are reported and change nothing; a failing "
                    "setup step skips main and teardown, a raising teardown step replaces whatever main did, the artifacts "
                    "directory is fresh (no earlier run's META.json is ever overwritten; LATEST points at the name-wise last run), "
-                   "a busy lock only delays the run; which half-finished setups / teardowns leave the transport, the "
+                   "a busy lock only delays the run; one fault at ANY awaited sqlite statement inside DBHandler.connect / insert_run_meta / "
+                   "complete_run_meta / disconnect (the statement fails with OperationalError, or Ctrl-C arrives while it is awaited and "
+                   "the sqlite thread still performs it; Model/LifecycleDb.lean, theorem dbfault_consistent_iff over every fault point, "
+                   "index unbounded, every kind and every ending of the command): exit code from the mapping, run entry absent or "
+                   "completed with that code, connection closed, finally block run to its end - except exactly at Ctrl-C during the "
+                   "INSERT (recorded defect); which half-finished setups / teardowns leave the transport, the "
                    "tester-present task or dumpcap behind is characterised exactly. The except ladder, the statement order of "
                    "entry_point, prepare_artifacts_dir and the four setup / teardown methods with their guards, the exit "
                    "constants (incl. OSFILE), mkdir's flags and CATCHED_EXCEPTIONS are regenerated from the AST / live modules "
                    "with agreement theorems. Tied to the code by running the real entry_point() (three tiny command classes; "
                    "fake transport / ECU / power supply / dumpcap that raise on script, the real tcp-lines transport and "
                    "power-supply driver against a closed port; real sqlite, flock probed and held from a second fd, pre-made run "
-                   "directories and LATEST, pinned clock, zstd log decoded with PenlogReader, recording hook scripts, real SIGINT) "
+                   "directories and LATEST, pinned clock, zstd log decoded with PenlogReader, recording hook scripts, real SIGINT, "
+                   "aiosqlite.Connection.execute / executescript / commit wrapped to fail or be interrupted at the n-th statement of a call) "
                    "over the crash-point matrix and comparing with the model and the executable spec; plus one shipped command "
                    "end to end (`discover doip` with --db against a closed port)."),
     "level_note": ("Trusted: Lean kernel (propext, Quot.sound, Classical.choice), the translator gen/c15_exit.py, the harness, "
                    "sqlite3/aiosqlite, zstandard, flock, subprocess, pathlib. Partial: process-level signal delivery and "
                    "interpreter exit are represented by KeyboardInterrupt / task cancellation and by the return value of "
-                   "entry_point(); that a process interrupted while waiting for a busy lock only ends once the lock is free, faults "
-                   "inside the finally block's database completion, "
+                   "entry_point(); that a process interrupted while waiting for a busy lock only ends once the lock is free, more than "
+                   "one database fault per run, an OperationalError inside complete_run_meta (compared, completed row not demanded), "
                    "failures of prepare_artifacts_dir after mkdir and the optional ECUReset / ping / power-cycle steps are not "
                    "modelled; for a run whose artifacts directory cannot be created the property names no ending, the model "
                    "follows the code (OSError escapes); config re-creation is only checked by round-tripping META.json's config "
